@@ -44,6 +44,31 @@ func c12Pool(c *ev.Ctx) []poolStream {
 			}
 		}
 	}
+	// streams from the specification-driven generator (every chunk kind, state and property
+	// resets after uncompressed chunks, several blocks, size fields) and, when liblzma is there,
+	// fresh xz-utils-style encodings of mixed data: what a chain member may legally look like
+	// is not limited to what this library's writer emits
+	for i := 0; i < 10; i++ {
+		rr := prng.New(c.Seed, 127, uint64(i))
+		for try := 0; try < 20; try++ {
+			b, content, _ := genXZContainer(rr, false)
+			o, ss, err := ref.DecodeXZ(b, 0)
+			if err == nil && len(ss) == 1 && ss[0].PaddingAfter == 0 && bytes.Equal(o, content) && len(b) < 20000 {
+				pool = append(pool, poolStream{fmt.Sprintf("gen%d", i), b, content})
+				break
+			}
+		}
+	}
+	if lzc.Available() {
+		for i := 0; i < 3; i++ {
+			d := gen.Data(r, []string{"sandwich", "sandwich2", "altseg"}[i], 200000)
+			if res := lzc.Encode(d, lzc.EncOpts{Kind: lzc.KindXZ, Preset: i, Check: []int{1, 4, 10}[i]}); res.OK() {
+				if o, ss, err := ref.DecodeXZ(res.Out, 0); err == nil && len(ss) == 1 && bytes.Equal(o, d) {
+					pool = append(pool, poolStream{fmt.Sprintf("liblzma-mixed%d", i), res.Out, d})
+				}
+			}
+		}
+	}
 	names, _ := loadCorpus(c, "xz")
 	for _, n := range names {
 		b, err := os.ReadFile(filepath.Join(c.Dir, "corpus", n))
